@@ -13,5 +13,12 @@ Definition run_nth_kill rej t evs := ids_of (survivors (run_events src_fatal_cfg
 Definition expected_ids rej t evs r := ids_of (expected_ev rej t evs r).
 Definition src_cfg_good := cfg_goodb src_fatal_cfg.
 Definition nth_cfg_good := cfg_goodb src_fatal_cfg_nothread.
+(* histories in which several sinks log to ONE file (a sink replaced by a new one for the same file, a second
+   short-lived Logger object): the state = handler tree + destroyed sinks; observed per file through [stream_ids] *)
+Definition w_src_fatal rej t evs r := wrun_fatal src_fatal_cfg qfile_policy rej t evs r.
+Definition w_src_kill rej t evs := wrun src_fatal_cfg qfile_policy rej t evs.
+Definition w_nth_fatal rej t evs r := wrun_fatal src_fatal_cfg_nothread qfile_policy rej t evs r.
+Definition w_nth_kill rej t evs := wrun src_fatal_cfg_nothread qfile_policy rej t evs.
 Extraction "fatal_model.ml" run_src_fatal run_src_kill run_nth_fatal run_nth_kill expected_ids prop_c11_ev_b final_sids
-  fresh src_cfg_good nth_cfg_good flush_on_fatal flush_on_fatal_nothread.
+  fresh src_cfg_good nth_cfg_good flush_on_fatal flush_on_fatal_nothread
+  w_src_fatal w_src_kill w_nth_fatal w_nth_kill expected_w stream_ids live_files prop_c11_w_b.
